@@ -185,13 +185,8 @@ def run_check(mod, prop, root, overrides):
     repo = Repo(root, overrides=overrides)
     r = Run(prop, 'quick', 0, repo)
     try:
-        from . import xlate as _x
-        from .main import report_hazards, check_placeholders
-        _x.HAZARD_LOG[:] = []
-        _x.PLACEHOLDER_LOG[:] = []
-        mod.check(r, repo)
-        report_hazards(r, repo, _x.HAZARD_LOG)
-        check_placeholders(repo, _x.PLACEHOLDER_LOG)
+        from .main import run_rules
+        run_rules(mod, r, repo)
     except (AnchorError, Unsupported, AnalysisError) as e:
         return None, '%s: %s' % (type(e).__name__, e)
     return r, None
